@@ -21,6 +21,19 @@ impl InterfaceInner {
             return None;
         }
 
+        // Per RFC 1122 §4.2.3.10 and RFC 9293 §3.10.7, a segment addressed to a broadcast
+        // or multicast address must be silently discarded: it must neither be handed to a
+        // socket nor be answered with a RST (whose source would be that address).
+        let dst_is_unicast = match dst_addr {
+            #[cfg(feature = "proto-ipv4")]
+            IpAddress::Ipv4(addr) => addr.x_is_unicast() && !self.is_broadcast_v4(addr),
+            #[cfg(feature = "proto-ipv6")]
+            IpAddress::Ipv6(addr) => addr.x_is_unicast(),
+        };
+        if !dst_is_unicast {
+            return None;
+        }
+
         let tcp_packet = check!(TcpPacket::new_checked(ip_payload));
         let tcp_repr = check!(TcpRepr::parse(
             &tcp_packet,
